@@ -589,6 +589,15 @@ impl Connect {
         let connect_flags = data[cursor];
         let connect_flags_buf = [connect_flags];
         cursor += 1;
+        // reserved bit must be 0, Will QoS must be 0..2, Will QoS/Retain need the Will Flag
+        // ([MQTT-3.1.2-3], [MQTT-3.1.2-11], [MQTT-3.1.2-13], [MQTT-3.1.2-14])
+        let will_qos_bits = (connect_flags >> 3) & 0x03;
+        if (connect_flags & 0b0000_0001) != 0
+            || will_qos_bits == 3
+            || ((connect_flags & 0b0000_0100) == 0 && (connect_flags & 0b0011_1000) != 0)
+        {
+            return Err(MqttError::MalformedPacket);
+        }
 
         // Keep Alive
         if data.len() < cursor + 2 {
